@@ -176,7 +176,13 @@ Effective(c, m) == ~ContentEq(c, Apply(c, m))
 \*  br   : branch marks as ints / bools / a DataFrame column
 \*  via  : direct | from_isotherm | json (export + parse) | dict (cls(**to_dict))
 \*  perm : keyword / dict insertion order reversed   alias : spelling of the adsorbate
-Route(cont, lit, br, via, perm, alias) == [cont |-> cont, lit |-> lit, br |-> br, via |-> via, perm |-> perm, alias |-> alias]
+\*  dflt : unit labels that equal the documented defaults (Labels0) are OMITTED from the call, and an
+\*         isotherm with entirely different unit labels was built just before (defaults are content;
+\*         they may not depend on what the session built earlier)
+\*  sub  : the object is an instance of a trivial user subclass (class X(PointIsotherm): pass)
+\*  br = "guess": no branch marks are given at all (the documented default branch='guess')
+Route(cont, lit, br, via, perm, alias) == [cont |-> cont, lit |-> lit, br |-> br, via |-> via, perm |-> perm, alias |-> alias,
+                                           dflt |-> FALSE, sub |-> FALSE]
 R0(c) == CASE c.cls = "point" -> Route(IF c.extras THEN "df_default" ELSE "list", "float", "ints", "direct", FALSE, "name")
            [] c.cls = "base" -> Route("kw", "float", "na", "direct", FALSE, "name")
            [] c.cls = "model" -> Route("instance", "float", "na", "direct", FALSE, "name")
@@ -190,6 +196,10 @@ DfCont == {"df_default", "df_shift", "df_str", "df_reversed_labels"}
 ArgMaxFirst(rows) == CHOOSE i \in DOMAIN rows : /\ \A j \in DOMAIN rows : Round8(rows[j].p) <= Round8(rows[i].p)
                                                 /\ \A j \in 1..(i - 1) : Round8(rows[j].p) < Round8(rows[i].p)
 GuessedMarks(rows) == [i \in DOMAIN rows |-> IF i > ArgMaxFirst(rows) THEN 1 ELSE 0]
+\* branch='guess' builds THIS content only if its marks are the guessed ones; a leading maximum is
+\* left out (the library documents it as "purely desorption", either reading is defensible)
+GuessBuilds(c) == /\ [i \in DOMAIN c.rows |-> c.rows[i].b] = GuessedMarks(c.rows)
+                  /\ (Len(c.rows) = 1 \/ ArgMaxFirst(c.rows) > 1)
 JsonCarriesMarks(c) == \/ c.rows = <<>>
                        \/ \E i \in DOMAIN c.rows : c.rows[i].b = 1
                        \/ [i \in DOMAIN c.rows |-> c.rows[i].b] = GuessedMarks(c.rows)
@@ -198,9 +208,10 @@ Applicable(c, r) ==
           /\ r.cont \in {"list", "tuple", "ndarray"} \cup DfCont
           /\ (c.extras => r.cont \in DfCont)
           /\ (r.lit = "int" => IntegralData(c))
-          /\ r.br \in {"ints", "bools", "column", "column_bool"}
+          /\ r.br \in {"ints", "bools", "column", "column_bool", "guess"}
+          /\ (r.br = "guess" => GuessBuilds(c))
           /\ (r.br \in {"column", "column_bool"} => r.cont \in DfCont)
-          /\ (r.via = "from_isotherm" => r.br \in {"column", "column_bool"})     \* from_isotherm has no branch argument
+          /\ (r.via = "from_isotherm" => r.br \in {"column", "column_bool", "guess"})     \* from_isotherm has no branch argument
           /\ r.via \in {"direct", "from_isotherm", "json", "copy"}
           /\ (r.via = "json" => JsonCarriesMarks(c))
      [] c.cls = "base" -> r.cont = "kw" /\ r.lit = "float" /\ r.br = "na" /\ r.via \in {"direct", "json", "dict", "copy"}
@@ -214,7 +225,8 @@ RoutesOf(c) ==
    LET r0 == R0(c)
        one == {[r0 EXCEPT !.cont = x] : x \in {"list", "tuple", "ndarray", "kw", "instance", "from_dict"} \cup DfCont}
               \cup {[r0 EXCEPT !.lit = x] : x \in {"int", "npfloat", "npint", "lists"}}
-              \cup {[r0 EXCEPT !.br = x] : x \in {"bools"}}
+              \cup {[r0 EXCEPT !.br = x] : x \in {"bools", "guess"}}
+              \cup {[r0 EXCEPT !.dflt = TRUE], [r0 EXCEPT !.sub = TRUE]}
               \cup {[r0 EXCEPT !.via = x] : x \in {"json", "dict", "copy"}}
               \cup {[r0 EXCEPT !.perm = TRUE]}
               \cup {[r0 EXCEPT !.alias = x] : x \in {"alias", "upper"}}
@@ -234,7 +246,27 @@ RoutesOf(c) ==
                   Route("from_dict", "npfloat", "na", "json", TRUE, "alias"),
                   Route("from_dict", "npint", "na", "direct", FALSE, "name"),
                   Route("instance", "int", "na", "json", FALSE, "upper"),
-                  Route("instance", "lists", "na", "copy", TRUE, "name")}
+                  Route("instance", "lists", "na", "copy", TRUE, "name"),
+                  \* guessed branch marks under every row labelling and container
+                  Route("df_default", "float", "guess", "direct", FALSE, "name"),
+                  Route("df_shift", "float", "guess", "direct", FALSE, "name"),
+                  Route("df_str", "float", "guess", "direct", FALSE, "name"),
+                  Route("df_reversed_labels", "float", "guess", "direct", FALSE, "name"),
+                  Route("df_shift", "float", "guess", "from_isotherm", FALSE, "alias"),
+                  Route("df_shift", "int", "guess", "direct", TRUE, "name"),
+                  Route("tuple", "float", "guess", "direct", FALSE, "upper"),
+                  Route("ndarray", "float", "guess", "json", FALSE, "name"),
+                  [Route("df_str", "float", "guess", "direct", TRUE, "alias") EXCEPT !.sub = TRUE],
+                  \* omitted default labels / user subclasses combined with other factors
+                  [Route("list", "float", "ints", "direct", TRUE, "alias") EXCEPT !.dflt = TRUE],
+                  [Route("df_default", "float", "column", "from_isotherm", FALSE, "name") EXCEPT !.dflt = TRUE, !.sub = TRUE],
+                  [Route("df_shift", "float", "bools", "json", FALSE, "name") EXCEPT !.dflt = TRUE],
+                  [Route("list", "float", "bools", "copy", FALSE, "name") EXCEPT !.sub = TRUE],
+                  [Route("kw", "float", "na", "json", FALSE, "name") EXCEPT !.dflt = TRUE],
+                  [Route("kw", "float", "na", "dict", TRUE, "upper") EXCEPT !.dflt = TRUE, !.sub = TRUE],
+                  [Route("from_dict", "float", "na", "direct", TRUE, "alias") EXCEPT !.dflt = TRUE, !.sub = TRUE],
+                  [Route("instance", "npfloat", "na", "json", FALSE, "name") EXCEPT !.dflt = TRUE],
+                  [Route("instance", "int", "na", "copy", FALSE, "name") EXCEPT !.sub = TRUE]}
    IN {r \in one \cup combos : Applicable(c, r)}
 
 ---------------------------------------------------------------------------
